@@ -784,6 +784,7 @@ func (s *Server) Invoke(responseWriter http.ResponseWriter, invoke *interop.Invo
 	case err = <-releaseErrChan:
 		log.Debug("Invoke() release error")
 	case <-releaseSuccessChan:
+		vhook.At("invoke.released")
 		s.Release()
 		log.Debug("Invoke() success")
 	}
